@@ -8,7 +8,7 @@ import time
 VERUS = os.environ.get('VERUS', 'verus')
 
 
-def run_verus(path, extra=(), timeout=1800, rlimit=None, threads=None, multiple_errors=8):
+def run_verus(path, extra=(), timeout=1800, rlimit=None, threads=None, multiple_errors=40):
     cmd = [VERUS, '--edition', '2024', '--triggers-mode', 'silent', '--output-json', '--time',
            '--multiple-errors', str(multiple_errors), '--error-format=json', '--no-report-long-running']
     if rlimit:
